@@ -392,8 +392,15 @@ pub fn do_forge(w: &mut World, s: usize, g: usize, template: u64, q: usize) -> V
                     && !rec.roster.iter().any(|(_, id, _)| *id == w.parties[*p].name)
             });
             let Some(o) = outsider else { return Ok(false) };
-            let Some(kp) = w.gen_key_package(o)? else { return Ok(false) };
-            (vec![enc_add(&kp)], "valid-add", false)
+            if r.chance(1, 3) {
+                // the last second of the key package's lifetime is still inside it
+                let at = mls_rs::time::MlsTime::from(w.clock.saturating_sub(365 * 24 * 3600));
+                let Some(kp) = w.gen_key_package_at(o, at)? else { return Ok(false) };
+                (vec![enc_add(&kp)], "valid-add-in-last-second-of-lifetime", false)
+            } else {
+                let Some(kp) = w.gen_key_package(o)? else { return Ok(false) };
+                (vec![enc_add(&kp)], "valid-add", false)
+            }
         }
         1 => (vec![enc_remove(sleaf)], "remove-committer", true),
         2 => match victim {
@@ -491,6 +498,14 @@ pub fn do_forge(w: &mut World, s: usize, g: usize, template: u64, q: usize) -> V
                         "receiver-side-proposal-rules",
                         format!("invalid-proposal-set-passed-receiver-rules:{name}"),
                         format!("P{p}: a commit carrying an invalid proposal set ({name}) passed every receiver-side proposal rule and was only stopped by its (random) confirmation tag"),
+                    ));
+                }
+                if !rule_expected && cls != "InvalidConfirmationTag" && name != "valid-add" {
+                    return Err(viol(
+                        w,
+                        "receiver-side-proposal-rules",
+                        format!("valid-proposal-set-refused:{name}:{cls}"),
+                        format!("P{p}: a commit carrying a valid proposal set ({name}) was refused with {cls} before its confirmation tag was looked at"),
                     ));
                 }
                 if !rule_expected && cls != "InvalidConfirmationTag" {
